@@ -82,6 +82,26 @@ def check_surface(ctx):
         else:
             ctx.bad("C10.1", f, f.node, f"the transformer handles an additional node kind (`{v}`): only modules, classes and synchronous "
                     "function definitions may be touched", construct=f"def {v}")
+    # visit methods bound by assignment in the class body (`visit_AsyncFunctionDef = visit_FunctionDef`) or on the class
+    # afterwards (`JaxtypingTransformer.visit_Lambda = ...`, `setattr(JaxtypingTransformer, "visit_...", ...)`)
+    for st in c.node.body:
+        tg = st.targets if isinstance(st, ast.Assign) else [st.target] if isinstance(st, (ast.AnnAssign, ast.AugAssign)) else []
+        for t in tg:
+            for x in ast.walk(t):
+                if isinstance(x, ast.Name) and (x.id.startswith("visit") or x.id == "generic_visit") and x.id not in EXPECTED_VISITS:
+                    what = "the traversal itself is changed" if x.id in ("visit", "generic_visit") else \
+                        "only modules, classes and synchronous function definitions may be touched"
+                    ctx.bad("C10.1", (c.file, c.qualname), st, f"the transformer binds `{x.id}` in its class body (`{short(st, 60)}`): {what}", construct=f"{x.id} = ...")
+    mod_ = c.module
+    for st in ast.walk(mod_.tree):
+        if isinstance(st, ast.Assign):
+            for t in st.targets:
+                if isinstance(t, ast.Attribute) and isinstance(t.value, ast.Name) and t.value.id == c.name and (t.attr.startswith("visit") or t.attr == "generic_visit") \
+                        and t.attr not in EXPECTED_VISITS:
+                    ctx.bad("C10.1", (c.file, c.qualname), st, f"`{short(st, 60)}` adds the visit method `{t.attr}` to the transformer", construct=f"{c.name}.{t.attr} = ...")
+        if isinstance(st, ast.Call) and isinstance(st.func, ast.Name) and st.func.id == "setattr" and len(st.args) == 3 and isinstance(st.args[0], ast.Name) and st.args[0].id == c.name \
+                and isinstance(st.args[1], ast.Constant) and isinstance(st.args[1].value, str) and st.args[1].value.startswith("visit") and st.args[1].value not in EXPECTED_VISITS:
+            ctx.bad("C10.1", (c.file, c.qualname), st, f"`{short(st, 60)}` adds the visit method `{st.args[1].value}` to the transformer", construct=f"setattr({c.name}, {st.args[1].value!r}, ...)")
     for v in sorted(EXPECTED_VISITS - visits):
         ctx.bad("C10.1", (c.file, c.qualname), c.node, f"`{v}` is missing", construct=f"no {v}")
     if visits == EXPECTED_VISITS:
